@@ -116,9 +116,21 @@ def gen_case(rng):
         tags.add("der:direct")
     if der_expr:
         l = sorted(der_expr)
-        eqs.append("  der(%s + 2 * %s) = 1;" % (l[0], l[1]) if len(l) >= 2 else "")
-        for extra in l[2:]:
-            eqs.append("  der(%s * 3) = 0.5;" % extra)
+        form = rng.choice(["sum", "time-product", "function"])
+        if form == "sum":
+            first = "  der(%s + 2 * %s) = 1;" % (l[0], l[1])
+        elif form == "time-product":
+            # the first reference inside der() is not a model variable
+            first = "  der(time * %s + %s) = 1;" % (l[0], l[1])
+        else:
+            first = "  der(sin(%s) + %s) = 1;" % (l[0], l[1])
+        tags.add("der:inside-expression:" + form)
+        # these come before or after the plain der() equations
+        block = [first if len(l) >= 2 else ""] + ["  der(%s * 3) = 0.5;" % extra for extra in l[2:]]
+        if rng.random() < 0.5:
+            eqs[:0] = block
+        else:
+            eqs += block
         tags.add("der:inside-expression")
     for n in sorted(der_init):
         ieqs.append("  der(%s) = 0;" % n)
@@ -139,7 +151,8 @@ def gen_case(rng):
         cder = []
         use_alias = rng.random() < 0.5
         for j in range(rng.randint(2, 4)):
-            pf = list(rng.choice([[], [], ["input"], ["output"], ["parameter"], ["constant"], ["discrete"]]))
+            pf = list(rng.choice([[], [], ["input"], ["output"], ["parameter"], ["constant"], ["discrete"],
+                                  ["discrete", "input"], ["discrete", "output"]]))
             nm = "z%d" % j
             cv.append((nm, pf))
         body = ""
